@@ -179,7 +179,7 @@ func (sc *scenario) runEnvelope(c *rep.Case, r *rep.Reporter, rt *router, ei int
 	// model first: decisions for every envelope recipient
 	expect := make([][]leaf, len(env.rcpts))
 	for i, rc := range env.rcpts {
-		expect[i] = rt.route(sc.top, env.sender, rc)
+		expect[i] = rt.route(sc.top, env.sender, env.senderText, rc, env.rcptText[i], nil)
 	}
 
 	d, startErr := sc.pl.Start(ctx, meta, env.senderText)
@@ -255,38 +255,41 @@ func (sc *scenario) runEnvelope(c *rep.Case, r *rep.Reporter, rt *router, ei int
 			}
 			return m
 		}
-		sigPath := strings.Join(viaList, ",")
 		if len(unknown) > 0 {
-			c.Violation("handover/unknown-recipient/"+sigPath, fmt.Sprintf("a target was handed a recipient that is no spelling of any address of the alphabet: %v", unknown), w(nil))
+			c.Violation("handover/unknown-recipient", fmt.Sprintf("a target was handed a recipient that is no spelling of any address of the alphabet: %v", unknown), w(nil))
 			continue
 		}
+		disc, what := "", ""
 		switch class {
 		case "deliver":
 			if err != nil {
-				c.Violation("refused-but-block-delivers/"+sigPath+"/"+spellSig(env, i), fmt.Sprintf("recipient %q (sender %q) refused with %v; the selected block(s) deliver to %v", env.rcptText[i], env.senderText, err, pairsString(want)), w(nil))
-				continue
+				disc, what = "refused-but-block-delivers", fmt.Sprintf("recipient %q (sender %q) refused with %v; the selected block(s) deliver to %v", env.rcptText[i], env.senderText, err, pairsString(want))
+				break
 			}
 			accepted++
 			if miss, extra := diff(want, obs); len(miss) > 0 || len(extra) > 0 {
-				sig := "handover"
+				disc = "handover"
 				if len(miss) > 0 {
-					sig += "/missing"
+					disc += "-missing"
 				}
 				if len(extra) > 0 {
-					sig += "/unexpected"
+					disc += "-unexpected"
 				}
-				c.Violation(sig+"/"+sigPath+"/"+spellSig(env, i), fmt.Sprintf("recipient %q (sender %q): targets handed %v, selected block(s) say %v", env.rcptText[i], env.senderText, pairsString(obs), pairsString(want)), w(nil))
+				what = fmt.Sprintf("recipient %q (sender %q): targets handed %v, selected block(s) say %v", env.rcptText[i], env.senderText, pairsString(obs), pairsString(want))
 			}
 		case "refuse":
 			if err == nil {
 				accepted++
-				c.Violation("accepted-but-block-rejects/"+sigPath+"/"+spellSig(env, i), fmt.Sprintf("recipient %q (sender %q) accepted and handed to %v; the selected block rejects (%s)", env.rcptText[i], env.senderText, pairsString(obs), refusals[0]), w(nil))
-				continue
+				disc, what = "accepted-but-block-rejects", fmt.Sprintf("recipient %q (sender %q) accepted and handed to %v; the selected block rejects (%s)", env.rcptText[i], env.senderText, pairsString(obs), refusals[0])
+				break
 			}
 			if len(obs) > 0 {
-				c.Violation("refused-recipient-seen-by-target/"+sigPath+"/"+spellSig(env, i), fmt.Sprintf("recipient %q refused (%v) but targets were handed %v", env.rcptText[i], err, pairsString(obs)), w(nil))
+				disc, what = "refused-recipient-seen-by-target", fmt.Sprintf("recipient %q refused (%v) but targets were handed %v", env.rcptText[i], err, pairsString(obs))
+				break
 			}
-			judgeReply(c, r, refusals, err, sigPath, env, i, w)
+			if ok, why := matchAnyReply(r, refusals, err); !ok {
+				disc, what = "refusal-reply-differs", fmt.Sprintf("recipient %q (sender %q) refused, but not with the selected block's configured reply (%s): %s", env.rcptText[i], env.senderText, refusals[0], why)
+			}
 		case "mixed":
 			// 1:N rewriting (or a reroute next to a deliver_to) where some results are refused and
 			// others delivered: the statement does not say whether the envelope recipient as a whole
@@ -297,11 +300,16 @@ func (sc *scenario) runEnvelope(c *rep.Case, r *rep.Reporter, rt *router, ei int
 				accepted++
 			}
 			if _, extra := diff(want, obs); len(extra) > 0 {
-				c.Violation("handover/unexpected/"+sigPath+"/"+spellSig(env, i), fmt.Sprintf("recipient %q: targets handed %v, not all within the selected blocks' %v", env.rcptText[i], pairsString(obs), pairsString(want)), w(nil))
+				disc, what = "handover-unexpected", fmt.Sprintf("recipient %q: targets handed %v, not all within the selected blocks' %v", env.rcptText[i], pairsString(obs), pairsString(want))
+			} else if err != nil {
+				if ok, why := matchAnyReply(r, refusals, err); !ok {
+					disc, what = "refusal-reply-differs", fmt.Sprintf("recipient %q refused, but with none of the configured replies of the selected blocks: %s", env.rcptText[i], why)
+				}
 			}
-			if err != nil {
-				judgeReply(c, r, refusals, err, sigPath, env, i, w)
-			}
+		}
+		if disc != "" {
+			sig, expl := sc.explain(env, i, err, obs, expect[i], disc)
+			c.Violation(sig, what+" ["+expl+"]", w(map[string]any{"cause_class": expl}))
 		}
 	}
 	if startErr == nil {
@@ -356,17 +364,141 @@ func spellSig(env envelope, i int) string {
 	return "spelling:" + featKey(f)
 }
 
-func judgeReply(c *rep.Case, r *rep.Reporter, refusals []*rejectSpec, err error, sigPath string, env envelope, i int, w func(map[string]any) map[string]any) {
+func matchAnyReply(r *rep.Reporter, refusals []*rejectSpec, err error) (bool, string) {
 	why := ""
 	for _, spec := range refusals {
 		ok, y := matchReply(spec, err)
 		if ok {
-			r.Count(fmt.Sprintf("refusal_reply_matched_nargs%d", spec.nargs), 1)
-			return
+			if r != nil {
+				r.Count(fmt.Sprintf("refusal_reply_matched_nargs%d", spec.nargs), 1)
+			}
+			return true, ""
 		}
 		why = y
 	}
-	c.Violation("refusal-reply-differs/"+sigPath, fmt.Sprintf("recipient %q refused, but not with the selected block's configured reply (%s): %s", env.rcptText[i], refusals[0], why), w(nil))
+	return false, why
+}
+
+func splitLeaves(ls []leaf) (map[pair]bool, []*rejectSpec) {
+	want := map[pair]bool{}
+	var refusals []*rejectSpec
+	for _, lf := range ls {
+		if lf.refuse != nil {
+			refusals = append(refusals, lf.refuse)
+		} else {
+			want[pair{lf.target, lf.rcpt}] = true
+		}
+	}
+	return want, refusals
+}
+
+func itemKind(it item) string {
+	switch it.kind {
+	case "in":
+		return "table"
+	case "rule":
+		hasA, hasD := false, false
+		for _, ru := range it.rules {
+			if ru.isAddr {
+				hasA = true
+			} else {
+				hasD = true
+			}
+		}
+		switch {
+		case hasA && hasD:
+			return "address-or-domain-rule"
+		case hasA:
+			return "address-rule"
+		}
+		return "domain-rule"
+	}
+	return "default"
+}
+
+// explain names the cause class of a discrepancy: it looks for a deliberately wrong router
+// (a rewrite scope ignored, or another block selected at the top level) that reproduces what
+// was observed. The signature never contains generated data.
+func (sc *scenario) explain(env envelope, i int, err error, obs map[pair]bool, ref []leaf, disc string) (string, string) {
+	q := &router{al: sc.al, quiet: true}
+	matches := func(ls []leaf) bool {
+		want, refusals := splitLeaves(ls)
+		switch {
+		case len(refusals) > 0 && len(want) > 0:
+			return false
+		case len(refusals) > 0:
+			if err == nil || len(obs) > 0 {
+				return false
+			}
+			ok, _ := matchAnyReply(nil, refusals, err)
+			return ok
+		}
+		if err != nil {
+			return false
+		}
+		miss, extra := diff(want, obs)
+		return len(miss) == 0 && len(extra) == 0
+	}
+	try := func(a *alt) bool {
+		return matches(q.route(sc.top, env.sender, env.senderText, env.rcpts[i], env.rcptText[i], a))
+	}
+	variants := []struct {
+		name string
+		a    alt
+	}{
+		{"global-recipient-rewrite-ignored", alt{skipGlobalRcpt: true}},
+		{"source-recipient-rewrite-ignored", alt{skipSourceRcpt: true}},
+		{"destination-recipient-rewrite-ignored", alt{skipDestRcpt: true}},
+		{"source-selected-on-unrewritten-sender", alt{skipGlobalSender: true}},
+		{"source-sender-rewrite-ignored", alt{skipSourceSender: true}},
+		{"reroute-evaluated-on-original-recipient", alt{rerouteOnOriginalRcpt: true}},
+	}
+	for _, v := range variants {
+		a := v.a
+		a.forceSrc, a.forceRcpt = -1, -1
+		if try(&a) {
+			return "rewrite/" + v.name, "the implementation behaved as if: " + v.name
+		}
+	}
+	// expected selection (top level), from the reference leaves
+	expS, expR := map[string]bool{}, map[string]bool{}
+	for _, lf := range ref {
+		if lf.depth == 0 {
+			expS[lf.viaS+"("+lf.litS+")"] = true
+			expR[lf.viaR+"("+lf.litR+")"] = true
+		}
+	}
+	if len(ref) > 0 && len(expS) == 0 { // all leaves are below a reroute; take the top-level decision from a quiet re-run
+		expS["?"], expR["?"] = true, true
+	}
+	top := sc.top
+	// which source block does the reference use?
+	var refSrc *srcBlock
+	if top.implicit != nil {
+		refSrc = top.implicit
+	} else {
+		s, _ := top.mods.rewriteSender(env.sender)
+		if k, _ := selectItem(top.items, s); k >= 0 {
+			refSrc = top.items[k].src
+		}
+	}
+	if refSrc != nil && refSrc.implicit == nil {
+		for fr := range refSrc.items {
+			if try(&alt{forceSrc: -1, forceRcpt: fr}) {
+				k := itemKind(refSrc.items[fr])
+				return "selection/destination/expected-" + featKey(expR) + "/behaved-like-" + k, "the implementation behaved as if the destination block of kind " + k + " had been selected"
+			}
+		}
+	}
+	if top.implicit == nil {
+		for fs := range top.items {
+			if try(&alt{forceSrc: fs, forceRcpt: -1}) {
+				k := itemKind(top.items[fs])
+				return "selection/source/expected-" + featKey(expS) + "/behaved-like-" + k, "the implementation behaved as if the source block of kind " + k + " had been selected"
+			}
+		}
+	}
+	return disc + "/unexplained", "no single wrong selection or ignored rewrite reproduces the observation"
 }
 
 func diff(want, obs map[pair]bool) (missing, extra []pair) {
